@@ -430,21 +430,33 @@ def only_ties(a, b):
     return all(len(x) == len(y) and [d for _, d in x] == [d for _, d in y] for x, y in zip(a, b))
 
 
-def f32_close(a, b):
-    """neighbour maps with identical source indices whose distances agree up to what storing coordinates in binary32 can
-    change -> largest absolute difference (m); None otherwise.  Bound: a float32 longitude near 180 deg has spacing 2**-16 deg
-    (1.7 m on the sphere), a latitude 2**-17 deg (0.85 m), a cartesian coordinate near 6.4e6 m has spacing 0.5 m; both end
-    points may move by half of each, and the float32 distance itself carries a few ulps: 5 m + 2**-21 * d is generous for all."""
+def f32_close(a, b, radius=None, k=None):
+    """Are two neighbour maps explained by coordinates having been stored in binary32 on one side only?
+    tol(d) = 5 m + 2**-21 d: a float32 longitude near 180 deg has spacing 2**-16 deg (1.7 m on the sphere), a latitude
+    2**-17 deg (0.85 m), a cartesian coordinate near 6.4e6 m has spacing 0.5 m; both end points may move by half of each and
+    the float32 distance carries a few ulps.  Per target: (a) the distances at equal rank agree within tol; (b) entries one
+    list has beyond the other's length lie within tol of the radius (they fell on the other side of the strict cut);
+    (c) a source present in one list only lies within tol of the cut that excluded it from the other (the radius, or the
+    other list's last distance when that list is full).  -> largest distance difference at equal rank (m), or None."""
     worst = 0.0
+    tol = lambda d: 5.0 + abs(d) * 2.0 ** -21
     for x, y in zip(a, b):
-        if len(x) != len(y):
-            return None
-        for (i, d), (j, e) in zip(x, y):
-            if i != j:
-                return None
-            if abs(d - e) > 5.0 + max(abs(d), abs(e)) * 2.0 ** -21:
+        m = min(len(x), len(y))
+        for (i, d), (j, e) in zip(x[:m], y[:m]):
+            if abs(d - e) > tol(max(d, e)):
                 return None
             worst = max(worst, abs(d - e))
+        for lst in (x[m:], y[m:]):
+            for _, d in lst:
+                if radius is None or d < radius - tol(radius):
+                    return None
+        for p, q in ((x, y), (y, x)):
+            qs = {i for i, _ in q}
+            for i, d in p:
+                if i not in qs:
+                    cut = q[-1][1] if (k is not None and len(q) >= k and q) else radius
+                    if cut is None or d < cut - tol(cut):
+                        return None
     return worst
 
 
@@ -553,11 +565,10 @@ def check_case(ctx, case, obs, report):
                 continue
             can, bcan = canon[kk], rcanon[kk]
             if f32_nprocs and can != bcan:
-                rel = f32_close(can, bcan)
+                rel = f32_close(can, bcan, case["radius"], 1 if kk == "info1" else case["k"])
                 if rel is not None:
-                    # same neighbours, distances equal up to binary32 rounding: pykdtree worked in the swath's float32,
-                    # the multi-process path (scipy on a c_double copy) in float64
-                    f32_rel = max(f32_rel, rel)
+                    # same neighbours up to binary32 rounding of the coordinates on one side
+                    f32_rel = max(f32_rel, rel, 1e-9)
                     ties[kk] = set(range(T))
                     continue
             if can == bcan:
@@ -589,7 +600,7 @@ def check_case(ctx, case, obs, report):
             why = ("its distance_array is float64 (scipy on a c_double copy) where the single-process one is float32 (pykdtree in the swath's dtype)"
                    if comp == "nprocs" else
                    "the stored target lon/lats are float64 while a fresh get_lonlats(dtype=float32) rounds the projection coordinates to float32 first")
-            report("C03.%s.float32_source" % comp, "%s finds the same neighbours as %s but %s: distances differ by up to %.3f m, so "
+            report("C03.%s.float32_source" % comp, "%s finds the same neighbours as %s up to binary32 rounding, but %s: distances at equal rank differ by up to %.3f m, so "
                    "weighted results differ in the last digits of binary32" % (name, rname, why, f32_rel), {"config": cfg, "reference": rcfg})
         # -- final arrays of the fresh calls
         for di, d in enumerate(fresh):
@@ -740,8 +751,8 @@ def seg_case_texts(case, obs):
     bl = "[" + "; ".join("true" if b else "false" for b in voi.tolist()) + "]"
     for run in runs[1:]:
         cfg = run["cfg"]
-        if cfg["reduce"] or cfg["nprocs"] != 1 or cfg["segments"] is None:
-            continue
+        if cfg["reduce"] or cfg["nprocs"] != 1 or cfg["segments"] is None or cfg.get("cache_target"):
+            continue        # (a run after get_lonlats(cache=True) is a different history of the target object, see the oracle)
         a = info_arrays(run["info1"])
         if a is None:
             continue
